@@ -150,7 +150,7 @@ def make_filter(rng, msgs):
         cl.append(clause())
     expr = ' and '.join('${%%%s} %s %d' % c for c in cl)
     if rng.random() < 0.2:
-        expr = ' ' + expr.replace('${%', '${ %') + '  '
+        expr = expr.replace('${%', '${ %') + '  '
     model = [['%' + n, op, k] for n, op, k in cl]
 
     def pred(meta):
